@@ -295,7 +295,9 @@ impl<K: Kind> Bf<K> {
     }
 
     fn do_audit(&mut self, ctx: &mut Ctx) -> Option<AuditInfo> {
-        let r = self.mref().with_manager_shared(|m| K::audit(m));
+        // exclusive: the gc thread (which collects under the shared lock) must not remove nodes
+        // while the store is walked
+        let r = self.mref().with_manager_exclusive(|m| K::audit(&*m));
         match r {
             Ok(info) => Some(info),
             Err(msg) => {
